@@ -74,33 +74,51 @@ type vExitPanic struct{ code int }
 
 // vOutcome is everything observable about one invocation.
 type vOutcome struct {
-	ran      int
-	err      error
-	panicked bool
-	panicV   interface{}
-	exited   bool
-	exitCode int
-	a, b     bool
-	o, e     []string
-	x, y     []string
-	user     [nOpts]bool // SetByUser of a, b, o, e
-	help     string
+	ran        int
+	err        error
+	panicked   bool
+	panicV     interface{}
+	exited     bool
+	exitCode   int
+	a, b       bool
+	o, e       []string
+	x, y       []string
+	user       [nOpts]bool // SetByUser of a, b, o, e
+	userArg    [2]bool     // SetByUser of X, Y
+	help       string
+	argvIntact bool
 }
 
 type vAppCfg struct {
-	spec     string
-	envE     bool // -e declared with EnvVar VE
-	envAll   bool // every option declared with an EnvVar (VA VB VO VE)
-	policy   flag.ErrorHandling
-	noAction bool
-	declMask int  // bits 0..5: declare a, b, o, e, X, Y (0 = everything)
-	wantHelp bool // also capture PrintHelp output
-	argEnv   bool // arguments X, Y declared with EnvVar VX, VY
-	shared   bool // -o and -e (and X, Y) declared with the same non-empty default slice
+	spec      string
+	envE      bool // -e declared with EnvVar VE
+	envAll    bool // every option declared with an EnvVar (VA VB VO VE)
+	policy    flag.ErrorHandling
+	noAction  bool
+	declMask  int  // bits 0..5: declare a, b, o, e, X, Y (0 = everything)
+	wantHelp  bool // also capture PrintHelp output
+	argEnv    bool // arguments X, Y declared with EnvVar VX, VY
+	shared    bool // -o and -e (and X, Y) declared with the same non-empty default slice
+	defEqEnv  bool // declared defaults equal the values the environment variables carry
+	argsFirst bool // arguments are declared before the options
 }
 
-// vRunTable builds the real application over the declaration table and runs it.
-func vRunTable(cfg vAppCfg, argv []string) (out vOutcome) {
+// vTableApp is a declared (not yet run) application over the declaration table.
+type vTableApp struct {
+	run func(full []string) vOutcome
+}
+
+// vRunTable builds the real application over the declaration table and runs it on a
+// fresh argument vector.
+func vRunTable(cfg vAppCfg, argv []string) vOutcome {
+	return vBuildTable(cfg).run(append([]string{"app"}, argv...))
+}
+
+// vBuildTable declares the application (the environment is read now); run executes it
+// on the given argument vector (element 0 is the program name) and records whether the
+// library left the caller's vector alone.
+func vBuildTable(cfg vAppCfg) *vTableApp {
+	var out vOutcome
 	stdErr = vDiscard{}
 	stdOut = vDiscard{}
 	exiter = func(code int) { panic(vExitPanic{code}) }
@@ -113,40 +131,53 @@ func vRunTable(cfg vAppCfg, argv []string) (out vOutcome) {
 		}
 		return ""
 	}
-	var user [nOpts]bool
-	mask := cfg.declMask
-	if mask == 0 {
-		mask = 63
-	}
-	var a, b *bool
-	var o, e, x, y *[]string
-	if mask&1 != 0 {
-		a = app.Bool(BoolOpt{Name: "a aa", EnvVar: envOf("VA"), SetByUser: &user[oA]})
-	}
-	if mask&2 != 0 {
-		b = app.Bool(BoolOpt{Name: "b bb", EnvVar: envOf("VB"), SetByUser: &user[oB]})
-	}
-	var defO, defX []string
-	if cfg.shared {
-		defO, defX = vSharedDefault, vSharedDefault
-	}
 	argEnvOf := func(n string) string {
 		if cfg.argEnv {
 			return n
 		}
 		return ""
 	}
+	var user [nOpts]bool
+	var userArg [2]bool
+	mask := cfg.declMask
+	if mask == 0 {
+		mask = 63
+	}
+	var defO, defE, defX []string
+	defA, defB := false, false
+	if cfg.shared {
+		defO, defE, defX = vSharedDefault, vSharedDefault, vSharedDefault
+	}
+	if cfg.defEqEnv {
+		defA, defB, defO, defE = true, true, []string{"v"}, []string{"w"}
+	}
+	var a, b *bool
+	var o, e, x, y *[]string
+	declArgs := func() {
+		if mask&16 != 0 {
+			x = app.Strings(StringsArg{Name: "X", Value: defX, EnvVar: argEnvOf("VX"), SetByUser: &userArg[0]})
+		}
+		if mask&32 != 0 {
+			y = app.Strings(StringsArg{Name: "Y", Value: defX, EnvVar: argEnvOf("VY"), SetByUser: &userArg[1]})
+		}
+	}
+	if cfg.argsFirst {
+		declArgs()
+	}
+	if mask&1 != 0 {
+		a = app.Bool(BoolOpt{Name: "a aa", Value: defA, EnvVar: envOf("VA"), SetByUser: &user[oA]})
+	}
+	if mask&2 != 0 {
+		b = app.Bool(BoolOpt{Name: "b bb", Value: defB, EnvVar: envOf("VB"), SetByUser: &user[oB]})
+	}
 	if mask&4 != 0 {
 		o = app.Strings(StringsOpt{Name: "o oo", Value: defO, EnvVar: envOf("VO"), SetByUser: &user[oO]})
 	}
 	if mask&8 != 0 {
-		e = app.Strings(StringsOpt{Name: "e ee", Value: defO, EnvVar: envOf("VE"), SetByUser: &user[oE]})
+		e = app.Strings(StringsOpt{Name: "e ee", Value: defE, EnvVar: envOf("VE"), SetByUser: &user[oE]})
 	}
-	if mask&16 != 0 {
-		x = app.Strings(StringsArg{Name: "X", Value: defX, EnvVar: argEnvOf("VX")})
-	}
-	if mask&32 != 0 {
-		y = app.Strings(StringsArg{Name: "Y", Value: defX, EnvVar: argEnvOf("VY")})
+	if !cfg.argsFirst {
+		declArgs()
 	}
 	cp := func(p *[]string) []string {
 		if p == nil {
@@ -165,6 +196,7 @@ func vRunTable(cfg vAppCfg, argv []string) (out vOutcome) {
 			}
 			out.o, out.e, out.x, out.y = cp(o), cp(e), cp(x), cp(y)
 			out.user = user
+			out.userArg = userArg
 		}
 	}
 	if cfg.wantHelp {
@@ -178,19 +210,26 @@ func vRunTable(cfg vAppCfg, argv []string) (out vOutcome) {
 		out.help = buf.s
 		stdErr = vDiscard{}
 	}
-	func() {
-		defer func() {
-			if r := recover(); r != nil {
-				if ep, ok := r.(vExitPanic); ok {
-					out.exited, out.exitCode = true, ep.code
-					return
+	return &vTableApp{run: func(full []string) vOutcome {
+		saved := append([]string(nil), full...)
+		stdErr = vDiscard{}
+		stdOut = vDiscard{}
+		exiter = func(code int) { panic(vExitPanic{code}) }
+		func() {
+			defer func() {
+				if r := recover(); r != nil {
+					if ep, ok := r.(vExitPanic); ok {
+						out.exited, out.exitCode = true, ep.code
+						return
+					}
+					out.panicked, out.panicV = true, r
 				}
-				out.panicked, out.panicV = true, r
-			}
+			}()
+			out.err = app.Run(full)
 		}()
-		out.err = app.Run(append([]string{"app"}, argv...))
-	}()
-	return
+		out.argvIntact = vEqStrs(full, saved)
+		return out
+	}}
 }
 
 func vEqStrs(a, b []string) bool {
